@@ -266,6 +266,20 @@ static void burst(int h, int hdr, int k)
     op_rx(h, f, frame_s(f, c->sendCount)); for (int i = 0; i < 4; i++) op_tick(1);
 }
 
+/* scripted: requests of many different sizes answered with parked replies while the peer acknowledges one APDU at a
+ * time or nothing: the reply ring wraps again and again with holes of every size in front of the oldest parked reply */
+static void hpwrap(int h, int hdr)
+{
+    uint8_t f[300], a[260];
+    for (int i = 0; i < 50; i++) {
+        MasterConnection c = conn_of_hid(h); if (!c || c->state != M_CON_STATE_STARTED) return;
+        int n = hdr + prng_range(1, 24); for (int j = 0; j < n; j++) a[j] = (uint8_t) prng_next(); a[0] = 1 + prng_below(40); a[1] = 1;
+        int nr = c->sendCount;
+        if (c->oldestSentASDU != -1) nr = prng_below(3) ? (c->sentASDUs[c->oldestSentASDU].seqNo + 32767) % 32768 : (c->sentASDUs[c->oldestSentASDU].seqNo + 1) % 32768;
+        op_rx(h, f, frame_i(f, c->receiveCount, nr, a, n)); op_tick(1);
+    }
+}
+
 static void episode(bool thorough)
 {
     int mode = prng_below(3), k = prng_below(4) ? prng_range(1, 12) : prng_range(1, 3), w = prng_below(2) ? prng_range(1, 8) : prng_range(1, k / 2 > 1 ? k / 2 : 1);
@@ -292,6 +306,7 @@ static void episode(bool thorough)
             if (prng_below(4) == 0) { MasterConnection nc = conn_of_hid(hs[nh - 1]); if (nc) op_preset(hs[nh - 1], prng_below(2) ? 32768 - prng_range(1, 20) : (int) prng_below(32768), prng_below(2) ? 32768 - prng_range(1, 20) : (int) prng_below(32768)); }
             if (prng_below(5)) { deliver(hs[nh - 1], f, frame_u(f, 0x07)); op_tick(1); } }
         else if (r < 7 && h >= 0 && rep > 0) burst(h, hdr, k);
+        else if (r < 9 && h >= 0 && rep > 0) hpwrap(h, hdr);
         else if (r < 25) op_tick(prng_below(4) ? prng_range(0, 50) : (prng_below(2) ? prng_range(100, 1500) : prng_range(900, 1100) * prng_range(1, 4)));
         else if (r < 45) { int n = rnd_asdu(a, hdr, 249); if (prng_below(8) == 0) n = prng_range(hdr, 252); op_enq(a, n); if (prng_below(2)) op_tick(prng_below(3)); }
         else if (h >= 0 && r < 62) {          /* I-frame from the client */
